@@ -1734,6 +1734,22 @@ func (lc *LightningChannel) restoreStateLogs(
 		lc.updateLogs.Local.restoreHtlc(&htlc)
 	}
 
+	// Restore unsigned acked local log updates so we expect the peer to
+	// sign for them. These updates are already part of the remote
+	// commitment tail, so their log indexes are all lower than those of the
+	// updates of a dangling commit restored below. They must be restored
+	// first to keep the local update log ordered by log index: the fee rate
+	// of a commitment is taken from the last fee update in the log, so
+	// restoring an older fee update behind a newer one would make us build
+	// our next local commitment with a stale fee rate and reject the
+	// remote party's valid signature.
+	err := lc.restorePeerLocalUpdates(
+		remoteUnsignedLocalUpdates, remoteCommitment.height,
+	)
+	if err != nil {
+		return err
+	}
+
 	// If we have a dangling (un-acked) commit for the remote party, then we
 	// restore the updates leading up to this commit.
 	if pendingRemoteCommit != nil {
@@ -1747,18 +1763,9 @@ func (lc *LightningChannel) restoreStateLogs(
 
 	// Restore unsigned acked remote log updates so that we can include them
 	// in our next signature.
-	err := lc.restorePendingRemoteUpdates(
+	return lc.restorePendingRemoteUpdates(
 		unsignedAckedUpdates, localCommitment.height,
 		pendingRemoteCommit,
-	)
-	if err != nil {
-		return err
-	}
-
-	// Restore unsigned acked local log updates so we expect the peer to
-	// sign for them.
-	return lc.restorePeerLocalUpdates(
-		remoteUnsignedLocalUpdates, remoteCommitment.height,
 	)
 }
 
